@@ -190,6 +190,7 @@ func (rt *runtime) cmplEvaluateNodeForInStatement(node *nodeForInStatement) Valu
 	// Names of the own properties (enumerable or not) of the objects already
 	// visited: they shadow properties of the same name further up the chain.
 	visited := map[string]bool{}
+	returned := false
 	for obj != nil {
 		enumerateValue := emptyValue
 		obj.enumerate(false, func(name string) bool {
@@ -211,6 +212,7 @@ func (rt *runtime) cmplEvaluateNodeForInStatement(node *nodeForInStatement) Valu
 					switch value.evaluateBreakContinue(labels) {
 					case resultReturn:
 						enumerateValue = value
+						returned = true
 						return false
 					case resultBreak:
 						obj = nil
@@ -228,7 +230,7 @@ func (rt *runtime) cmplEvaluateNodeForInStatement(node *nodeForInStatement) Valu
 		if !enumerateValue.isEmpty() {
 			result = enumerateValue
 		}
-		if obj == nil {
+		if obj == nil || returned {
 			break
 		}
 		obj.enumerate(true, func(name string) bool {
